@@ -77,6 +77,7 @@ theorem hist_step (n : Nat) (s : St) (t : Nat) (h : Hist n s) : Hist n (step s t
     · exact h.q [.step t] (by nocan) _ rfl rfl
   · exact h.free [] (by nocan) _ rfl rfl
   · exact h.free [] (by nocan) _ rfl rfl
+  · exact h.free [] (by nocan) _ rfl rfl
   · exact h.free [.send t _] (by nocan) _ rfl rfl
   · -- dFree
     dsimp only
@@ -89,6 +90,7 @@ theorem hist_step (n : Nat) (s : St) (t : Nat) (h : Hist n s) : Hist n (step s t
     split
     · exact h.free [.step t, .ack t] (by nocan) _ rfl rfl
     · exact h.free [.step t] (by nocan) _ rfl rfl
+  · exact h.free [] (by nocan) _ rfl rfl
   · exact h.free [] (by nocan) _ rfl rfl
 
 theorem hist_apply (n : Nat) (s : St) (a : Act) (h : Hist n s) : Hist n (apply s a) := by
